@@ -1335,6 +1335,13 @@ def migration44(tdset):
     add_column('_grist_Pages', 'options', 'Text')
   ])
 
+def _ms_to_seconds(value):
+  # Comment JSON is free text: anything that is not a finite number counts as "no timestamp".
+  try:
+    return int(value / 1000)
+  except (TypeError, ValueError, OverflowError):
+    return 0
+
 @migration(schema_version=45)
 def migration45(tdset):
   """
@@ -1367,8 +1374,8 @@ def migration45(tdset):
       time_updated = content.get('timeUpdated')
 
       # Convert milliseconds to seconds for DateTime columns
-      time_created_values.append(int(time_created / 1000) if time_created is not None else 0)
-      time_updated_values.append(int(time_updated / 1000) if time_updated is not None else 0)
+      time_created_values.append(_ms_to_seconds(time_created))
+      time_updated_values.append(_ms_to_seconds(time_updated))
       resolved_values.append(bool(content.get('resolved', False)))
 
       # Remove these fields from JSON content if they exist
